@@ -50,6 +50,42 @@ pub fn judge(tt: &TT, t: usize, sample: &[Vec<i32>]) -> Option<String> {
     None
 }
 
+/// The construction itself: one library call with the hooks recording every order-dependent choice
+/// (hash iteration order of the cross interactions, the unstable sort, the rank comparison, the
+/// shuffle); the Lean model `TW.sampleTWiseQ` replays the run with these choices and must return the
+/// same configurations in the same order.
+fn construction(out: &mut Out, d: &Ddnnf, export: &str, t: usize) {
+    use ddnnife::ddnnf::anomalies::t_wise_sampling::SamplingResult;
+    use std::sync::{Arc, Mutex};
+    let events: Arc<Mutex<Vec<String>>> = Arc::new(Mutex::new(Vec::new()));
+    {
+        let ev = events.clone();
+        ddnnife::verif_hooks::set_data_callback(Some(Box::new(move |name, data| {
+            let e = match name {
+                "twise.inter" => format!("I {}", data.replace(';', " ; ")),
+                "twise.sorted" => format!("S {data}"),
+                "twise.drop" => format!("D {data}"),
+                "twise.shuf" => format!("H {data}"),
+                _ => return,
+            };
+            ev.lock().unwrap().push(e);
+        })));
+    }
+    let res = guarded(|| d.sample_t_wise(t));
+    ddnnife::verif_hooks::set_data_callback(None);
+    let evs: Vec<String> = events.lock().unwrap().drain(..).collect();
+    let Ok(res) = res else { return };   // panics are reported by the stream pass
+    let body = match &res {
+        SamplingResult::Void => "false".to_string(),
+        SamplingResult::Empty => "true".to_string(),
+        SamplingResult::ResultWithSample(s) => s.iter().map(|c| fmt_ints(c.get_literals())).collect::<Vec<_>>().join(";"),
+    };
+    out.count("construction_replays", 1);
+    out.count("construction_oracle_entries", evs.len() as u64);
+    out.circuit(export, &circuit_line(d));
+    out.query("twgen", &format!("{t} | {}", evs.join(" | ")), &format!("rejected=0 left=0 | {body}"));
+}
+
 fn run(d: &mut Ddnnf, line: &str) -> Result<String, String> { let l = line.to_string(); guarded(|| d.handle_stream_msg(&l)) }
 
 fn one(out: &mut Out, rng: &mut Rng, file: &GenFile, tt: &TT, d: &mut Ddnnf, tmax: usize, repeats: usize) {
@@ -64,6 +100,7 @@ fn one(out: &mut Out, rng: &mut Rng, file: &GenFile, tt: &TT, d: &mut Ddnnf, tma
                     format!("t-wise l {t} f {}", vals.join(" "))
                 };
                 out.eval(if rep == 0 { Some(format!("{}|{}", file.text(), line)) } else { None });
+                if variant == 0 { construction(out, d, &export, t); }
                 out.count(if variant == 0 { "plain_runs" } else { "fitness_runs" }, 1);
                 let reply = match run(d, &line) {
                     Ok(r) => r,
